@@ -11,6 +11,7 @@ package rt
 import (
 	"bytes"
 	"io"
+	"fmt"
 	"io/fs"
 	"os"
 	"path"
@@ -517,6 +518,7 @@ func DiskReset() {
 	diskMu.Lock()
 	files = map[string][]byte{}
 	journal = nil
+	tempCtr = 0
 	diskMu.Unlock()
 }
 
@@ -734,10 +736,104 @@ func Rename(oldpath, newpath string) error {
 	return nil
 }
 
-type notExist struct{ name string }
+// CreateTemp replaces os.CreateTemp: the random part of the name is a counter (a function of the
+// run, not of the process).
+func CreateTemp(dir, pattern string) (*File, error) {
+	if dir == "" {
+		dir = "/tmp"
+	}
+	prefix, suffix := pattern, ""
+	if i := strings.LastIndexByte(pattern, '*'); i >= 0 {
+		prefix, suffix = pattern[:i], pattern[i+1:]
+	}
+	for try := 0; try < 10000; try++ {
+		diskMu.Lock()
+		tempCtr++
+		n := tempCtr
+		diskMu.Unlock()
+		name := path.Join(dir, fmt.Sprintf("%s%09d%s", prefix, n, suffix))
+		f, err := OpenFile(name, os.O_RDWR|os.O_CREATE|os.O_EXCL, 0o600)
+		if err == nil {
+			return f, nil
+		}
+		if pe, ok := err.(*fs.PathError); !ok || pe.Err != syscall.EEXIST {
+			return nil, err
+		}
+	}
+	return nil, &fs.PathError{Op: "createtemp", Path: path.Join(dir, pattern), Err: syscall.EEXIST}
+}
 
-func (e *notExist) Error() string {
-	return "open " + e.name + ": no such file or directory (simulated disk)"
+var tempCtr int
+
+type fileInfo struct {
+	name string
+	size int64
+}
+
+func (i fileInfo) Name() string       { return i.name }
+func (i fileInfo) Size() int64        { return i.size }
+func (i fileInfo) Mode() fs.FileMode  { return 0o644 }
+func (i fileInfo) ModTime() time.Time { return time.Time{} }
+func (i fileInfo) IsDir() bool        { return false }
+func (i fileInfo) Sys() any           { return nil }
+
+type dirInfo struct{ fileInfo }
+
+func (dirInfo) IsDir() bool       { return true }
+func (dirInfo) Mode() fs.FileMode { return fs.ModeDir | 0o777 }
+
+// Stat replaces os.Stat / os.Lstat.
+func Stat(name string) (fs.FileInfo, error) {
+	if c := path.Clean(name); c == "/tmp" || c == "/" {
+		return dirInfo{fileInfo{name: path.Base(c)}}, nil
+	}
+	diskMu.Lock()
+	defer diskMu.Unlock()
+	b, ok := files[name]
+	if !ok {
+		return nil, &fs.PathError{Op: "stat", Path: name, Err: syscall.ENOENT}
+	}
+	return fileInfo{name: path.Base(name), size: int64(len(b))}, nil
+}
+
+func Lstat(name string) (fs.FileInfo, error) { return Stat(name) }
+
+// Chmod replaces os.Chmod (permissions are not modelled).
+func Chmod(name string, mode fs.FileMode) error {
+	_, err := Stat(name)
+	if err != nil {
+		err.(*fs.PathError).Op = "chmod"
+	}
+	return err
+}
+
+// MkdirAll / Mkdir: the simulated disk has the directories / and /tmp only.
+func MkdirAll(p string, perm fs.FileMode) error {
+	if c := path.Clean(p); c == "/tmp" || c == "/" {
+		return nil
+	}
+	return &fs.PathError{Op: "mkdir", Path: p, Err: syscall.EACCES}
+}
+
+func Mkdir(p string, perm fs.FileMode) error {
+	if c := path.Clean(p); c == "/tmp" || c == "/" {
+		return &fs.PathError{Op: "mkdir", Path: p, Err: syscall.EEXIST}
+	}
+	return &fs.PathError{Op: "mkdir", Path: p, Err: syscall.EACCES}
+}
+
+func (f *File) Chmod(mode fs.FileMode) error {
+	if f.closed {
+		return fs.ErrClosed
+	}
+	return nil
+}
+
+func (f *File) Stat() (fs.FileInfo, error) {
+	if f.closed {
+		return nil, fs.ErrClosed
+	}
+	return Stat(f.name)
 }
 
 // ReadFile replaces os.ReadFile in instrumented code.
@@ -746,7 +842,7 @@ func ReadFile(name string) ([]byte, error) {
 	defer diskMu.Unlock()
 	b, ok := files[name]
 	if !ok {
-		return nil, &notExist{name}
+		return nil, &fs.PathError{Op: "open", Path: name, Err: syscall.ENOENT}
 	}
 	return append([]byte(nil), b...), nil
 }
@@ -763,6 +859,33 @@ func JournalLen() int {
 	diskMu.Lock()
 	defer diskMu.Unlock()
 	return len(journal)
+}
+
+// JournalOf / JournalLenOf: the writes to paths with the given suffix (the subscribers' CDR
+// files are /tmp/<supi>.cdr; temporary files an implementation may write next to them and
+// rename into place are not what a reader of the CDR files sees).
+func JournalOf(suffix string) []Write {
+	diskMu.Lock()
+	defer diskMu.Unlock()
+	var out []Write
+	for _, w := range journal {
+		if strings.HasSuffix(w.Path, suffix) {
+			out = append(out, w)
+		}
+	}
+	return out
+}
+
+func JournalLenOf(suffix string) int {
+	diskMu.Lock()
+	defer diskMu.Unlock()
+	n := 0
+	for _, w := range journal {
+		if strings.HasSuffix(w.Path, suffix) {
+			n++
+		}
+	}
+	return n
 }
 
 // Files returns the sorted paths on the simulated disk.
